@@ -7,6 +7,9 @@ pub mod erun;
 pub mod hist;
 pub mod fmtx;
 pub mod parsers;
+pub mod sched;
+pub mod rtrnet;
+pub mod clibin;
 pub mod c01;
 pub mod c02;
 pub mod c03;
